@@ -155,7 +155,7 @@ class SparseMLPModel(MLPModel):
         W2_grad = self.H_.T @ tau_hat_grad  # Shape
         b2_grad = tau_hat_grad.sum(0, keepdims=True)
 
-        backprop_grad = tau_hat_grad @ W2_grad.T
+        backprop_grad = tau_hat_grad @ self.W2_.T
         backprop_grad *= self.H_ > 0
         W1_grad = X.T @ backprop_grad
         b1_grad = backprop_grad.sum(0, keepdims=True)
@@ -391,11 +391,11 @@ class SparseMLPMMD(SparseMLPModel):
     >>> X,y=load_iris(return_X_y=True)
     >>> clf = SparseMLPMMD(random_state=0).fit(X)
     >>> clf.predict(X[:2,:])
-    array([0, 0])
+    array([2, 2])
     >>> clf.predict_proba(X[:2,:]).shape
     (2, 3)
     >>> clf.score(X)
-    1.7664211836
+    1.7670896815
     """
     _parameter_constraints: dict = {
         **SparseMLPModel._parameter_constraints,
